@@ -173,7 +173,8 @@ def main(tier):
         tx = S.Tx(txver, [(fund.txid(), vpos, b"", 0xfffffffd)], [(amount - 500, b"\x51\x20" + bytes(32))], 17)       # the version is signed over
         base = ["-pbcrt", "--tx=" + tx.raw().hex(), "--txin=" + fund.raw().hex(), key.hex(), str(len(scripts))] + ["0x" + x.hex() for x in scripts]
         args = base + ([str(idx)] + ["0x" + a.hex() for a in sargs] if mode != "key" else [])
-        r1 = cli.run(tapbin, args, stdin_tty=True, stdout_tty=True)
+        # (every fourth job with the sighash diagnostics switched on: a logging switch must not change what is hashed)
+        r1 = cli.run(tapbin, args, stdin_tty=True, stdout_tty=True, env=({"DEBUG_SIGHASH": "1"} if i % 4 == 1 else None))
         txt = (r1["stdout"] or b"") + (r1["stderr"] or b"")
         m = re.search(rb"sighash \(little endian\) = ([0-9a-f]{64})", txt)
         if mode != "key":
